@@ -34,7 +34,7 @@ Proof.
   destruct fl as [f|]; [|reflexivity].
   destruct (nth_error cs (fst f)) as [c|]; [|reflexivity].
   destruct (nth_error (rc_args c) (snd f)) as [r|]; [|reflexivity].
-  destruct (takes_value (r_spec r) && negb (r_raw r) && negb (a_optional (r_spec r))); [reflexivity|].
+  destruct (takes_value (r_spec r) && negb g && negb (a_optional (r_spec r))); [reflexivity|].
   destruct (negb (r_raw r) && a_optional (r_spec r)); [|reflexivity].
   destruct (set_value r (IBool true) false); reflexivity.
 Qed.
@@ -73,7 +73,7 @@ Qed.
 Lemma resolved_inert got : inert (resolved got).
 Proof.
   unfold resolved. apply inert_after; [congruence | reflexivity |].
-  cbn [r_spec rtrue]. rewrite Nl. reflexivity.
+  rewrite needs_value_optional; [reflexivity | exact Nl | exact Opt].
 Qed.
 
 Lemma pending_flag_arg got : flag_arg (pending got) = Some r.
@@ -85,7 +85,7 @@ Proof. unfold waiting. rewrite pending_flag_arg, Tv, Nl, Raw. reflexivity. Qed.
 Lemma pending_complete_flag got : complete_flag (pending got) = Ok (resolved got).
 Proof.
   unfold complete_flag. rewrite pending_flag_arg. unfold pending at 1. cbn [m_flag MS]. fold kk.
-  rewrite Tv, Raw, Opt. cbn [negb andb].
+  rewrite Tv, Raw, Opt. cbn [negb andb]. rewrite andb_false_r.
   unfold set_arg_value, pending. fold kk. rewrite MS_get_arg_cur, Nr, set_true, MS_put_arg. reflexivity.
 Qed.
 
